@@ -249,12 +249,30 @@ async fn run_case<TC: ModelCfg>(c: &Case<'_, TC>, queries: &[Bits], rep: &Report
     }
 }
 
+/// the 8-label universe plus labels sharing exactly 63, 64 and 65 leading bits with the base label
+/// (word boundary), thorough only
+fn universe_c05(thorough: bool) -> Vec<Bits> {
+    let mut uni = universe8();
+    if thorough {
+        let b = uni[0].clone();
+        for p in [63usize, 64, 65] {
+            let tail = blake3::hash(format!("akdmc universe tail {p}").as_bytes());
+            let t = Bits::from_bytes(tail.as_bytes(), 256);
+            let mut v = b.0[..p].to_vec();
+            v.push(!b.0[p]);
+            v.extend_from_slice(&t.0[p + 1..]);
+            uni.push(Bits(v));
+        }
+    }
+    uni
+}
+
 fn run_cfg<TC: ModelCfg>(args: &Args, rep: &Report) {
-    let uni = universe8();
+    let uni = universe_c05(!args.quick());
     // queries: the universe plus, for each universe label, single-bit flips at boundary positions
     let mut queries: Vec<Bits> = uni.clone();
     for u in &uni {
-        for i in [0usize, 1, 2, 7, 8, 9, 254, 255] {
+        for i in [0usize, 1, 2, 7, 8, 9, 63, 64, 65, 254, 255] {
             let f = flip(u, i);
             if !queries.contains(&f) {
                 queries.push(f);
@@ -263,7 +281,13 @@ fn run_cfg<TC: ModelCfg>(args: &Args, rep: &Report) {
     }
     let two_epoch_modes: &[bool] = if args.quick() { &[true] } else { &[false, true] };
     let mut items = vec![];
-    for mask in 0u32..256 {
+    let nuni = uni.len();
+    for mask in 0u32..(1u32 << nuni) {
+        // beyond the 8 base labels: only sets that contain at least one of the word-boundary labels and
+        // at most 5 labels (keeps the thorough tier bounded)
+        if mask >= 256 && mask.count_ones() > 5 {
+            continue;
+        }
         for &two in two_epoch_modes {
             items.push((mask, two));
         }
@@ -272,7 +296,7 @@ fn run_cfg<TC: ModelCfg>(args: &Args, rep: &Report) {
     crate::explore::par_for(args.threads, &items, |_, &(mask, two)| {
         let rt = crate::gate::plain_runtime();
         rt.block_on(async {
-            let set: Vec<usize> = (0..8).filter(|i| mask & (1 << i) != 0).collect();
+            let set: Vec<usize> = (0..nuni).filter(|i| mask & (1 << i) != 0).collect();
             let db = GateDb::new();
             let mgr = manager(&db, CacheCfg::None);
             let mut azks = Azks::new::<TC, _>(&mgr).await.unwrap();
